@@ -369,6 +369,29 @@ func suffixOrSame(v, ph ssa.Value, depth int) bool {
 	if sl, ok := v.(*ssa.Slice); ok && sl.High == nil {
 		return suffixOrSame(sl.X, ph, depth+1)
 	}
+	switch x := v.(type) {
+	case *ssa.Phi:
+		// a join of suffixes
+		for _, e := range x.Edges {
+			if e == ssa.Value(x) || !suffixOrSame(e, ph, depth+1) {
+				return false
+			}
+		}
+		return len(x.Edges) > 0
+	case *ssa.Call:
+		// what is left after removing a prefix
+		switch calleeFullName(&x.Call) {
+		case "bytes.TrimPrefix", "strings.TrimPrefix", "bytes.TrimLeft", "strings.TrimLeft":
+			return suffixOrSame(x.Call.Args[0], ph, depth+1)
+		}
+	case *ssa.Extract:
+		// the part after the separator found by Cut
+		if call, ok := x.Tuple.(*ssa.Call); ok && x.Index == 1 {
+			if n := calleeFullName(&call.Call); n == "bytes.Cut" || n == "strings.Cut" {
+				return suffixOrSame(call.Call.Args[0], ph, depth+1)
+			}
+		}
+	}
 	return false
 }
 
